@@ -294,7 +294,8 @@ theorem C06_reentrant_terminates (cfg : Cfg) (host port : Nat) (evs : List Afkak
 /-- C06 with RE-ENTRANT callbacks, unconditionally (formerly the open statement): for every
     configuration and every event list of the re-entrant model — callbacks that are any finite lists
     of `close` / `disconnect` / `cancel id` / `make id expect`, nested to any depth, with or without the
-    endpoint that connects from inside `cancel()` — from some amount of fuel on the stream monitor `r06`
+    endpoint that connects from inside `cancel()`, with endpoints that answer `connect()` synchronously
+    (success or failure inside `makeRequest` / `_connectionLost` / the retry timer) — from some amount of fuel on the stream monitor `r06`
     accepts the trace: a Deferred fires only after it was handed out, at most once (no second firing
     is even attempted), `ok b` only with a packet carrying its id, and every Deferred unfired when a
     `close()` goes ahead has fired when that call returns. -/
